@@ -110,6 +110,8 @@ func cmdRun(args []string) {
 	ufcalls := fs.String("uf", "", "comma separated function names treated as UF")
 	symmake := fs.Bool("symmake", false, "")
 	ufrem := fs.Bool("ufrem", false, "")
+	ufmul := fs.Bool("ufmul", false, "")
+	stubs := fs.String("stubs", "", "fn=stub,fn=stub")
 	tmo := fs.Int("timeout", 60000, "")
 	fs.Parse(args)
 	rest := fs.Args()
@@ -143,6 +145,15 @@ func cmdRun(args []string) {
 	cfg.RelaxFDiv = *relax
 	cfg.SymbolicMake = *symmake
 	cfg.UFRem = *ufrem
+	cfg.UFMul = *ufmul
+	if *stubs != "" {
+		cfg.Stubs = map[string]string{}
+		for _, kv := range strings.Split(*stubs, ",") {
+			if i := strings.LastIndex(kv, "="); i > 0 {
+				cfg.Stubs[kv[:i]] = kv[i+1:]
+			}
+		}
+	}
 	if *ufcalls != "" {
 		cfg.UFCalls = map[string]bool{}
 		for _, f := range strings.Split(*ufcalls, ",") {
@@ -161,6 +172,23 @@ func cmdRun(args []string) {
 	}
 	res := sym.Explore(prog, cfg)
 	printResult(res)
+	if fsx := sym.ForkStats(); fsx != nil {
+		type kv struct {
+			k string
+			v int
+		}
+		var l []kv
+		for k, v := range fsx {
+			l = append(l, kv{k, v})
+		}
+		sort.Slice(l, func(i, j int) bool { return l[i].v > l[j].v })
+		for i, x := range l {
+			if i > 25 {
+				break
+			}
+			fmt.Printf("  forks %8d  %s\n", x.v, x.k)
+		}
+	}
 }
 
 func printResult(res *sym.HarnessResult) {
